@@ -44,12 +44,12 @@ func newVectorizedTable(a vectorAccumulator) *vectorTable {
 }
 
 func (t *vectorTable) aggregate(_ float64, vector model.StepVector) {
+	t.timestamp = vector.T
 	if len(vector.SampleIDs) == 0 {
 		t.hasValue = false
 		return
 	}
 	t.hasValue = true
-	t.timestamp = vector.T
 	t.value = t.accumulator(vector.Samples)
 }
 
